@@ -84,6 +84,16 @@ func NewWriterLevel(w io.Writer, level, wc int) (*Writer, error) {
 				break
 			}
 		}
+		// A write has failed and nothing more will be written, but
+		// queued compressors must still be recycled and accounted for
+		// so that Write, Flush, Wait and Close return the error
+		// instead of blocking.
+		for qw := range bg.queue {
+			c := <-qw.flush
+			c.buf.Reset()
+			bg.qwg.Done()
+			bg.waiting <- c
+		}
 	}()
 
 	return bg, nil
@@ -94,6 +104,7 @@ func writeOK(bg *Writer, c *compressor) bool {
 
 	if c.err != nil {
 		bg.setErr(c.err)
+		bg.qwg.Done()
 		return false
 	}
 	if c.buf.Len() == 0 {
